@@ -91,6 +91,11 @@ func (s *scanner) BeginEexec(ivLen int) error {
 	}
 	s.regurgitate = false
 
+	// The random bytes are not part of the decrypted text: the text starts at
+	// the beginning of a line, whatever these bytes happen to decrypt to.
+	s.Col = 0
+	s.crSeen = false
+
 	return nil
 }
 
